@@ -165,6 +165,7 @@ class ContractMixin:
                     self.add_obligation('pre', s2, goal, f'{c.target}::{label}', node, detail=ast.unparse(rest[0]))
                 s2.assume(goal)
             pre = s2.heap_snapshot()
+            pre_len = len(pre.pc)
             env['__old__'] = pre
             # ---- normal return
             normal_possible = not c.has('never_returns')
@@ -193,6 +194,7 @@ class ContractMixin:
                     s3.assume(self.spec_bool(s3, self.sev(s3, rest[0], e3, c.module)))
                 for call in c.calls('ghost_update'):
                     self.do_ghost_update(s3, call, e3, c)
+                s3.pc.extend(pre.pc[pre_len:])
                 if self.feasible(s3):
                     outs.append(Out('ok', s3, res))
             # ---- exceptional returns
@@ -205,15 +207,15 @@ class ContractMixin:
                     if call.keywords and any(k.arg == 'modifies' for k in call.keywords):
                         pass
                     self.apply_modifies(s4, mods)
-                    e = self.alloc(s4, None)
-                    cid = smt.fresh('ecls', smt.Int)
-                    s4.CL = z3.Store(s4.CL, r_of(e.term), cid)
-                    s4.assume(self.is_subclass_term(cid, exc_cls.ci))
-                    ev = SV(e.term, 'ref', exc_cls.ci)
+                    et = smt.fresh('exc', Val)
+                    s4.assume(AND(is_ref(et), r_of(et) < s4.A,
+                                  self.is_subclass_term(z3.Select(s4.CL, r_of(et)), exc_cls.ci)))
+                    ev = SV(et, 'ref', exc_cls.ci)
                     e4 = dict(env)
                     e4['exc'] = ev
                     if len(rest) > 1:
                         s4.assume(self.spec_bool(s4, self.sev(s4, rest[1], e4, c.module)))
+                    s4.pc.extend(pre.pc[pre_len:])
                     if self.feasible(s4):
                         outs.append(Out('raise', s4, ev))
             elif not c.has('raises_nothing'):
@@ -237,6 +239,8 @@ class ContractMixin:
         ph = self.path_hash(st)
         full = f'{unit}::{name}'
         ob = Obligation(full, kind, st, goal, detail, unit, node)
+        if self.unit_pre is not None:
+            ob.pc = ob.pc + self.unit_pre.pc[self.unit_pre_len:]
         ob.path = ph
         self.obligations.append(ob)
         return ob
@@ -258,6 +262,7 @@ class ContractMixin:
 
     def param_facts(self, st: St, v: SV):
         st.assume(self.older(st, v.term))
+        st.assume(z3.Implies(is_ref(v.term), r_of(v.term) >= 1))
 
     def const_facts(self, st: St):
         for cid, ci in self.const_class.items():
@@ -327,6 +332,7 @@ class ContractMixin:
         # vacuity guard: the assumed pre-state must be satisfiable
         self.add_obligation('cover', st, TRUE, 'pre_satisfiable')
         pre = st.heap_snapshot()
+        self.unit_pre_len = len(pre.pc)
         st.old = pre
         env['__old__'] = pre
         self.unit_env = env
@@ -424,16 +430,28 @@ class ContractMixin:
             e = dict(env)
             e['result'] = o.val
             self.run_lets(st, c, e, 'post')
+            replays = {k.args[0].value: k.args[1].value for k in c.calls('replay')}
             for i, call in enumerate(c.calls('ensures')):
                 label, rest = self._label(call, f'post{i}')
                 goal = self.spec_bool(st, self.sev(st, rest[0], e, c.module))
-                self.add_obligation('post', st, goal, label, None, detail=ast.unparse(rest[0]))
+                for kn in c.calls('known'):
+                    if kn.args[0].value != label:
+                        continue
+                    when = self.spec_bool(st, self.sev(st, kn.args[2], e, c.module))
+                    kob = self.add_obligation('post', st, z3.Implies(when, goal), f'{label}@{kn.args[1].value}', None,
+                                              detail='known finding side: ' + ast.unparse(kn.args[2]))
+                    kob.expect_refuted = True
+                    kob.known_id = kn.args[1].value
+                    goal = z3.Implies(NOT(when), goal)
+                ob = self.add_obligation('post', st, goal, label, None, detail=ast.unparse(rest[0]))
+                ob.replay = replays.get(label)
             self.check_frame(st, c, e)
         elif o.kind == 'raise':
             rcalls = c.calls('raises')
             if c.has('raises_nothing') and not rcalls:
                 ob = self.add_obligation('raises', st, FALSE, 'raises_nothing', None, detail='no exception may escape')
                 ob.exc = o.val
+                ob.replay = {k.args[0].value: k.args[1].value for k in c.calls('replay')}.get('raises_nothing')
                 return
             if not rcalls:
                 # contract silent about exceptions: any Exception allowed, but not BaseException-only classes
@@ -452,6 +470,7 @@ class ContractMixin:
             ob = self.add_obligation('raises', st, OR(*alts), 'raises_only_declared', None,
                                      detail=' | '.join(ast.unparse(cl) for cl in rcalls))
             ob.exc = o.val
+            ob.replay = {k.args[0].value: k.args[1].value for k in c.calls('replay')}.get('raises_only_declared')
             if c.has('frame_on_raise'):
                 self.check_frame(st, c, e)
         else:
